@@ -564,8 +564,35 @@ func (a *c12) r3(nn *types.Func) {
 	c := a.c
 	fns := a.reach(nn)
 	cmps := a.boundComparisons(fns)
+	// a bound that is not MINDIST must not decide anything except through a comparison this rule
+	// can read: handing it to a library search/sort hides the boundary case MINDIST == bound
+	hidden := false
+	for _, fn := range fns {
+		if a.isBound(fn) {
+			continue
+		}
+		ast.Inspect(c.P.Decl(fn).Body, func(n ast.Node) bool {
+			call, ok := n.(*ast.CallExpr)
+			if !ok {
+				return true
+			}
+			f := callee(a.info, call)
+			if f == nil || c.P.Decl(f) != nil || f.Pkg() == nil || f.Pkg().Path() == "math" {
+				return true
+			}
+			for _, arg := range call.Args {
+				if a.exprClass(arg)&2 != 0 {
+					hidden = true
+					c.Unk("C12.R3", fmt.Sprintf("%s#filter:%s", c.P.FuncName(fn), src(call)), call.Pos(), "entries are selected by `%s`, which receives the MINMAXDIST-derived bound `%s`: whether an entry whose MINDIST equals the bound survives (it must: for a degenerate box MINDIST = MINMAXDIST and the entry holds the nearest object) depends on that function's boundary convention, which is not decided here", src(call), src(arg))
+				}
+			}
+			return true
+		})
+	}
 	if len(cmps) == 0 {
-		c.OK("C12.R3", c.P.FuncName(nn)+"#pruning", c.P.Decl(nn).Pos(), "the single-neighbour search does not prune by MINMAXDIST")
+		if !hidden {
+			c.OK("C12.R3", c.P.FuncName(nn)+"#pruning", c.P.Decl(nn).Pos(), "the single-neighbour search does not prune by MINMAXDIST")
+		}
 		return
 	}
 	for _, bc := range cmps {
